@@ -56,13 +56,16 @@ class Explorer:
 
     Attribution: a failing case is charged to its minimal failing sub-selection(s) of deviations (each
     sub-selection is itself an enumerated case; they are re-evaluated on demand and memoised), so the
-    signature `culprit` names the fewest non-base features that reproduce the failure kind, e.g.
-    'volume=range' or 'links=multi+bones=forest'.  Every failing case is still recorded and counted.
+    signature `cause` names the fewest non-base features (as coarse '<group>=<class>' terms) that reproduce the
+    failure kind, e.g. 'interval=range' or 'bones=forest+links=multi'.  Every failing case is still recorded and counted.
     """
 
     def __init__(self, part: str, features: dict, evaluate: Callable[[dict], Result],
-                 inert: Optional[Callable[[dict], bool]] = None):
+                 inert: Optional[Callable[[dict], bool]] = None, groups: Optional[dict] = None):
         self.part = part
+        # feature -> coarse group name used in failure signatures (default: the feature's own name), so that
+        # e.g. the three operator stacks or name/value positions of the same writer path share one cause
+        self.groups = groups or {}
         self.features = features
         self.names = list(features)
         self.evaluate = evaluate
@@ -106,10 +109,17 @@ class Explorer:
                     out.append((n, -1))
         return tuple(out)
 
-    def tag(self, dev: tuple) -> str:
+    def cause(self, dev: tuple) -> str:
+        """Coarse, stable signature of a selection: sorted distinct '<group>=<class>' terms."""
         if not dev:
             return 'base'
-        return '+'.join(f'{n}={self.features[n][i][0] if i >= 0 else "?"}' for n, i in dev)
+        return '+'.join(sorted({f'{self.groups.get(n, n)}={self.features[n][i][0] if i >= 0 else "?"}' for n, i in dev}))
+
+    def describe(self, dev: tuple) -> str:
+        if not dev:
+            return 'none (base value)'
+        return ', '.join(f'{n}={self.features[n][i][0]}:{core.jdump(self.features[n][i][1])[:60]}' if i >= 0 else f'{n}=?'
+                         for n, i in dev)
 
     # -- execution
     def run_dev(self, dev: tuple) -> Result:
@@ -141,8 +151,9 @@ class Explorer:
                 continue
             seen.add(kind)
             for c in self.culprits(dev, kind):
-                acc.fail(kind, case, f'[{self.part}] deviations: {self.tag(dev)}\n{detail}',
-                         part=self.part, culprit=self.tag(c))
+                acc.fail(kind, case, f'[{self.part}] deviations from the base value: {self.describe(dev)}\n'
+                                      f'minimal failing selection: {self.describe(c)}\n{detail}',
+                         part=self.part, cause=self.cause(c))
         return res
 
     def shard(self, devs: list) -> core.Acc:
@@ -176,7 +187,7 @@ class Explorer:
             setting.update(case['dev'])
             res = self.evaluate(setting)
             for kind, detail in res.fails:
-                acc.fail(kind, case, detail, part=self.part, culprit=self.tag(dev))
+                acc.fail(kind, case, detail, part=self.part, cause=self.cause(dev))
         else:
             self.record(acc, dev, case)
         return acc.all_failures()
@@ -380,7 +391,7 @@ def check_handmade(acc: core.Acc, which: str) -> None:
         acc.nontrivial += 1
     acc.outcome((PART, tuple(k for k, _ in res.fails) or 'ok', _digest(res.out)))
     for kind, detail in res.fails:
-        acc.fail(kind, case, f'[cmdseq] {detail}', part=PART, culprit='handmade:' + which)
+        acc.fail(kind, case, f'[cmdseq] {detail}', part=PART, cause='handmade:' + which)
 
 
 # ---------------------------------------------------------------------------------------------
